@@ -197,6 +197,9 @@ pub fn next_req(r: &mut Rng, s: &mut Scen, eng: &Engine, prop: &str) -> Option<S
 pub struct Mem {
     /// last successful deposit: (long, short, prices, minted, impact value, snapshot before)
     pub last_deposit: Option<(u128, u128, P6, u128, i128, Snap)>,
+    /// snapshot right after that deposit, and its receiver fees (long, short)
+    pub after_deposit: Option<Snap>,
+    pub deposit_recv_fees: (u128, u128),
 }
 
 /// C04: conservation + all-or-nothing. `t` = request tokens, `r` = response tokens.
